@@ -32,6 +32,9 @@ pub fn trace(desc: impl FnOnce() -> String) {
         use std::os::unix::fs::FileExt;
         let mut s = desc();
         s.truncate(3900);
+        if std::env::var_os("LSVERIF_TRACE_ECHO").is_some() {
+            eprintln!("CASE {s}");
+        }
         let mut buf = vec![b' '; 4096];
         buf[..s.len()].copy_from_slice(s.as_bytes());
         buf[4095] = b'\n';
